@@ -492,6 +492,7 @@ class Inliner(object):
     if depth == 0:
       self.cur_known = set(self.inv.get(qual, ())); self.cur_taken = local_names(fn); self.cur_claimed = set()
     fn.body = self.block(fn.body, cls, qual, depth, closures)
+    if depth == 0: _split_tuple_returns(fn)
     if depth == 0:
       self.claimed_by_func = getattr(self, 'claimed_by_func', {}); self.claimed_by_func[qual] = set(self.cur_claimed)
       self.cur_known = set(); self.cur_taken = set()
@@ -730,6 +731,125 @@ class Inliner(object):
     body = self.block(body, cls, hq, depth + 1, closures)
     for s in body: ast.fix_missing_locations(s)
     return pre + body, ret
+
+def _split_tuple_returns (fn):
+  """N7: an inlined helper that returns either None or an n-tuple, whose result the caller unpacks (`a, b = T`) after testing `T is None`:
+  the elements are bound where the tuple was built and the unpack disappears.  A tuple element that is one of the helper's own
+  (prefixed) locals simply takes the caller's name.  (`T` itself stays as the None / not-None marker.)"""
+  import re as _re
+  temps = set(n.id for n in ast.walk(fn) if isinstance(n, ast.Name) and isinstance(n.ctx, ast.Store) and _re.search(r'__ret\d+$', n.id))
+  for T in sorted(temps):
+    assigns = [a for a in ast.walk(fn) if isinstance(a, ast.Assign) and len(a.targets) == 1 and isinstance(a.targets[0], ast.Name) and a.targets[0].id == T]
+    tuples = [a for a in assigns if isinstance(a.value, ast.Tuple)]
+    if not tuples or any(not (isinstance(a.value, ast.Tuple) or (isinstance(a.value, ast.Constant) and a.value.value is None)) for a in assigns): continue
+    n = len(tuples[0].value.elts)
+    if any(len(a.value.elts) != n or any(isinstance(e, ast.Starred) for e in a.value.elts) for a in tuples): continue
+    unpacks = [a for a in ast.walk(fn) if isinstance(a, ast.Assign) and isinstance(a.value, ast.Name) and a.value.id == T and len(a.targets) == 1
+               and isinstance(a.targets[0], ast.Tuple) and len(a.targets[0].elts) == n and all(isinstance(e, ast.Name) for e in a.targets[0].elts)]
+    if len(unpacks) != 1: continue
+    # every other read of T is a None test
+    loads = [x for x in ast.walk(fn) if isinstance(x, ast.Name) and x.id == T and isinstance(x.ctx, ast.Load)]
+    tests = [c for c in ast.walk(fn) if isinstance(c, ast.Compare) and isinstance(c.left, ast.Name) and c.left.id == T and len(c.ops) == 1 and isinstance(c.ops[0], (ast.Is, ast.IsNot))
+             and isinstance(c.comparators[0], ast.Constant) and c.comparators[0].value is None]
+    if len(loads) != len(tests) + 1: continue
+    targets = [e.id for e in unpacks[0].targets[0].elts]
+    if len(set(targets)) != n: continue
+    # the caller's names must not be read between the construction of the tuple and the unpack: require them not to be read inside the
+    # statements that build T (the inlined helper body) at all
+    builders = set()
+    for a in assigns:
+      for x in ast.walk(fn):
+        pass
+    helper_prefix = T[:T.rindex('__ret')]
+    helper_locals = set(x.id for x in ast.walk(fn) if isinstance(x, ast.Name) and x.id.startswith(helper_prefix + '__') and not _re.search(r'__(ret|done)\d+', x.id))
+    ren = {}
+    ok = True
+    for a in tuples:
+      for p_, e_ in zip(targets, a.value.elts):
+        if isinstance(e_, ast.Name) and e_.id in helper_locals:
+          if ren.get(e_.id, p_) != p_: ok = False
+          ren[e_.id] = p_
+    if not ok or len(set(ren.values())) != len(ren): continue
+    # a caller name that the helper's code already reads (a parameter passed by name) cannot be taken over
+    if any(isinstance(x, ast.Name) and x.id in ren.values() and isinstance(x.ctx, ast.Load) and any(x in list(ast.walk(a_)) for a_ in assigns) for x in ast.walk(fn)): continue
+    class Ren(ast.NodeTransformer):
+      def visit_Name (self, n_):
+        if n_.id in ren: n_.id = ren[n_.id]
+        return n_
+    Ren().visit(fn)
+    def rewrite (body):
+      out = []
+      for st in body:
+        if st is unpacks[0]: continue
+        if st in tuples:
+          for p_, e_ in zip(targets, st.value.elts):
+            if isinstance(e_, ast.Name) and e_.id == p_: continue
+            out.append(ast.copy_location(ast.Assign(targets=[ast.Name(id=p_, ctx=ast.Store())], value=e_, lineno=st.lineno), st))
+          out.append(ast.copy_location(ast.Assign(targets=[ast.Name(id=T, ctx=ast.Store())], value=ast.Constant(value=True), lineno=st.lineno), st))
+          continue
+        for fld in ('body', 'orelse', 'finalbody'):
+          if hasattr(st, fld) and isinstance(getattr(st, fld), list) and not isinstance(st, FUNC): setattr(st, fld, rewrite(getattr(st, fld)) or [ast.copy_location(ast.Pass(), st)] if fld == 'body' else rewrite(getattr(st, fld)))
+        if isinstance(st, ast.Try):
+          for h in st.handlers: h.body = rewrite(h.body) or [ast.copy_location(ast.Pass(), st)]
+        out.append(st)
+      return out
+    fn.body = rewrite(fn.body)
+    ast.fix_missing_locations(fn)
+    _direct_exits(fn, T)
+
+def _direct_exits (fn, T):
+  """after N7: `T` is only a marker (None / True) that the statement right behind the inlined body tests: `if T is None: <K>` with K
+  ending in return / break / continue / raise.  Where every `T = None` sits in tail position of the inlined region, K takes its place
+  and marker and test disappear - the early exits of the helper are the caller's early exits again."""
+  import copy as _copy
+  def is_none_assign (st): return isinstance(st, ast.Assign) and len(st.targets) == 1 and isinstance(st.targets[0], ast.Name) and st.targets[0].id == T and isinstance(st.value, ast.Constant) and st.value.value is None
+  def is_true_assign (st): return isinstance(st, ast.Assign) and len(st.targets) == 1 and isinstance(st.targets[0], ast.Name) and st.targets[0].id == T and isinstance(st.value, ast.Constant) and st.value.value is True
+  def mentions (st): return any(isinstance(x, ast.Name) and x.id == T for x in ast.walk(st))
+  def tail_ok (body):
+    # every marker assignment in `body` is the last statement of its branch, recursively through if/else only
+    for i, st in enumerate(body):
+      last = i == len(body) - 1
+      if is_none_assign(st) or is_true_assign(st):
+        if not last: return False
+      elif isinstance(st, ast.If) and mentions(st):
+        if not last or any(isinstance(x, ast.Name) and x.id == T for x in ast.walk(st.test)): return False
+        if not tail_ok(st.body) or not tail_ok(st.orelse): return False
+      elif mentions(st): return False
+    return True
+  def subst (body, K):
+    out = []
+    for st in body:
+      if is_none_assign(st): out.extend(_copy.deepcopy(K)); continue
+      if is_true_assign(st): continue
+      if isinstance(st, ast.If) and mentions(st):
+        st.body = subst(st.body, K) or [ast.copy_location(ast.Pass(), st)]
+        st.orelse = subst(st.orelse, K)
+      out.append(st)
+    return out
+  def walk (body):
+    for i in range(len(body) - 1):
+      S, tst = body[i], body[i + 1]
+      if isinstance(tst, ast.If) and not tst.orelse and isinstance(tst.test, ast.Compare) and isinstance(tst.test.left, ast.Name) and tst.test.left.id == T and len(tst.test.ops) == 1 \
+         and isinstance(tst.test.ops[0], ast.Is) and isinstance(tst.test.comparators[0], ast.Constant) and tst.test.comparators[0].value is None \
+         and tst.body and isinstance(tst.body[-1], (ast.Return, ast.Break, ast.Continue, ast.Raise)) and not any(mentions(k) for k in tst.body) \
+         and isinstance(S, ast.If) and mentions(S) and tail_ok([S]):
+        # T must not be used anywhere else
+        total = sum(1 for x in ast.walk(fn) if isinstance(x, ast.Name) and x.id == T)
+        here = sum(1 for x in ast.walk(S) if isinstance(x, ast.Name) and x.id == T) + 1
+        if total != here: continue
+        new = subst([S], tst.body)
+        body[i:i + 2] = new
+        return True
+    for st in body:
+      for fld in ('body', 'orelse', 'finalbody'):
+        sub = getattr(st, fld, None)
+        if isinstance(sub, list) and not isinstance(st, FUNC) and walk(sub): return True
+      if isinstance(st, ast.Try):
+        for h in st.handlers:
+          if walk(h.body): return True
+    return False
+  walk(fn.body)
+  ast.fix_missing_locations(fn)
 
 def _always_assigns (body, name):
   """does every fall-through path of body assign name? (structural approximation)"""
@@ -1543,6 +1663,7 @@ def normalize_module (tree, modname, stats=None, external=None, external_def=Non
               k = expand_temps(s, known)
               info['expanded'] += k
               if not k: break
+            _split_tuple_returns(s)
           for n in ast.walk(s):
             if n is not s and isinstance(n, FUNC):
               qq = q + '.' + n.name
